@@ -16,7 +16,7 @@ RULE = ("(i) Exhaustive coefficient extraction: exploitability is linear in (low
         "coefficient of every lower(S)/upper(S) must be -/+ 1/C(n,|S|). (ii) Hypothesis: boxes (lower vector + non-negative "
         "widths; int/dyadic/float; v(empty)=0, grand coalition known) for n=2..9: value == exact rational weighted gap, == sum "
         "of per-player maximal Shapley values (independent orderings oracle, n<=7) - v(N); sign / zero claims; Shapley value "
-        "of drawn completions inside the box never exceeds the per-player maximum. Non-trivial: >= 3 different widths with "
+        "of drawn completions inside the box never exceeds the per-player maximum. (iii) the gap functions as selected BY NAME (GAP_FUNCTIONS, ModelInstance.gap_function_callable) on arbitrary real bound vectors, crossed bounds included, against the definitions. Non-trivial: >= 3 different widths with "
         "at least one 0 and one > 0; distinct = hash of the box.")
 LEVEL_TEXT = ("The linear map is decided completely for each n by enumerating its basis (exhaustive for the listed n), and "
               "linearity/identities are explored on generated boxes against exact rational arithmetic. 'Proved for each n' in the "
@@ -127,10 +127,57 @@ def _tol(n, lower, upper):
     return 64 * n * (1 << n) * EPS * scale
 
 
+def _check_registry(case: dict) -> Result:
+    """The gap functions as users select them by name (GAP_FUNCTIONS / ModelInstance.gap_function_callable) on arbitrary real
+    bound vectors - crossed ones (lower > upper) included: the formulas are stated for all real vectors."""
+    from incomplete_cooperative.run.model import GAP_FUNCTIONS, ModelInstance
+    from ..oracles import ref_gap, gap_tol
+    res = Result()
+    n, lo, up = case["n"], case["lower"], case["upper"]
+    obj = _icg_raw_any(n, lo, up)
+    for name in ("exploitability", "l1_norm", "l2_norm", "linf_norm"):
+        want = ref_gap(name, lo, up, n)
+        tol = max(gap_tol(name, lo, up, n), _tol(n, lo, up))
+        for how, fn in (("GAP_FUNCTIONS", GAP_FUNCTIONS[name]), ("ModelInstance", ModelInstance(number_of_players=n, gap_function=name).gap_function_callable)):
+            got = float(fn(obj))
+            if abs(got - want) > tol:
+                res.fail(f"registered-gap!=definition :: {how}[{name!r}] on n={n}: {got!r}, definition gives {want!r}")
+    crossed = any(l > u for l, u in zip(lo, up))
+    res.nontrivial = crossed and ref_gap("exploitability", lo, up, n) < 0
+    res.label(f"n={n}", "registry", "crossed" if crossed else "ordered")
+    return res
+
+
+def _icg_raw_any(n, lo, up):
+    from .. import repo
+    g = repo.new_game(n)
+    full = (1 << n) - 1
+    g.set_known_values([0.0, up[full]], repo.coals([0, full]))
+    for s in range(1, full):
+        g.set_lower_bound(lo[s], repo.coal(s))
+        g.set_upper_bound(up[s], repo.coal(s))
+    return g
+
+
+@st.composite
+def registry_boxes(draw):
+    n = draw(st.integers(2, 5))
+    size = 1 << n
+    lo = [float(x) for x in draw(st.lists(st.integers(-32, 32), min_size=size, max_size=size))]
+    wd = [float(x) for x in draw(st.lists(st.integers(-8, 16), min_size=size, max_size=size))]     # negative width = crossed bounds
+    if draw(st.booleans()):
+        wd = [-abs(w) for w in wd]
+    lo[0] = wd[0] = 0.0
+    wd[size - 1] = 0.0
+    return {"kind": "registry", "n": n, "lower": lo, "upper": [a + b for a, b in zip(lo, wd)]}
+
+
 @guarded
 def check_case(case: dict) -> Result:
     if case["kind"] == "basis":
         return _check_basis(case)
+    if case["kind"] == "registry":
+        return _check_registry(case)
     from incomplete_cooperative.exploitability import compute_exploitability
     res = Result()
     n, lo, up = case["n"], case["lower"], case["upper"]
@@ -249,10 +296,10 @@ def plan(tier: str) -> list[dict]:
     if tier == "quick":
         return ([{"mode": "basis", "ns": [2, 3, 4, 5], "cost": 1}, {"mode": "basis", "ns": [6], "cost": 2}]
                 + [{"mode": "boxes", "max_n": 7, "examples": 400, "cost": 3} for _ in range(4)]
-                + [{"mode": "boxes", "max_n": 9, "min_n": 8, "examples": 20, "cost": 3}])
+                + [{"mode": "boxes", "max_n": 9, "min_n": 8, "examples": 20, "cost": 3}, {"mode": "registry", "examples": 150, "cost": 4}])
     return ([{"mode": "basis", "ns": [2, 3, 4, 5, 6], "cost": 2}, {"mode": "basis", "ns": [7], "cost": 4}, {"mode": "basis", "ns": [8], "cost": 10}]
             + [{"mode": "boxes", "max_n": 7, "examples": 1500, "cost": 8} for _ in range(9)]
-            + [{"mode": "boxes", "max_n": 9, "min_n": 8, "examples": 150, "cost": 8} for _ in range(4)])
+            + [{"mode": "boxes", "max_n": 9, "min_n": 8, "examples": 150, "cost": 8} for _ in range(3)] + [{"mode": "registry", "examples": 4000, "cost": 8}])
 
 
 def run_shard(spec: dict, ctx: Ctx) -> None:
@@ -261,5 +308,8 @@ def run_shard(spec: dict, ctx: Ctx) -> None:
             case = {"kind": "basis", "n": n}
             ctx.judge_enum(case, check_case(case))
         ctx.extra["exhaustive_parts"] = [f"all unit boxes (coefficients of every lower(S), upper(S)) for n in {spec['ns']}, two object kinds"]
+        return
+    if spec["mode"] == "registry":
+        ctx.run_given(registry_boxes(), check_case, spec["examples"])
         return
     ctx.run_given(boxes(spec["max_n"], spec.get("min_n", 2)), check_case, spec["examples"], sample_of=_sample)
